@@ -54,7 +54,7 @@ func JSONBytes(o interface{}) []byte {
 func JSONBytesPretty(o interface{}) []byte {
 	jsonBytes := JSONBytes(o)
 	var object interface{}
-	err := json.Unmarshal(jsonBytes, &object)
+	err := unmarshalJSON(jsonBytes, &object)
 	if err != nil {
 		gcmn.PanicSanity(err)
 	}
